@@ -295,8 +295,10 @@ pub fn check(c: &mut Checks, w: &World, miners: &[MinerH], r: &MsgResult, is_tic
                         let before = pre.deadlines.get(di).and_then(|d| d.partitions.get(pi));
                         for s in &p.faults {
                             if before.map(|b| !b.faults.contains(s)).unwrap_or(true) {
-                                if let Some(info) = post.sectors.get(s) {
-                                    new_faulty += sector_power(post.sector_size, info).qa;
+                                if post.sectors.contains_key(s) {
+                                    // the penalty is assessed on the power the disputed proof vouched for (the snapshot at window
+                                    // close), which may predate a replica update: at least the raw size, at most 10x
+                                    new_faulty += BigInt::from(post.sector_size);
                                 }
                             }
                         }
@@ -308,8 +310,8 @@ pub fn check(c: &mut Checks, w: &World, miners: &[MinerH], r: &MsgResult, is_tic
                     if let Some(d) = pre.deadlines.get(dp.deadline as usize) {
                         for p in &d.partitions {
                             for s in &p.sectors {
-                                if let Some(info) = pre.sectors.get(s).or_else(|| post.sectors.get(s)) {
-                                    all_qa += sector_power(pre.sector_size, info).qa;
+                                if pre.sectors.contains_key(s) || post.sectors.contains_key(s) {
+                                    all_qa += BigInt::from(pre.sector_size) * BigInt::from(10);
                                 }
                             }
                         }
